@@ -90,7 +90,7 @@ func loadFmt(g *lookup) {
 	g.Set("fmt.Sprintf", NewFunc(2, 1, func(v *VM, args []Value, vargs ...Value) []Value {
 		var va []any
 		for _, v := range vargs {
-			va = append(va, v)
+			va = append(va, v.native())
 		}
 		return []Value{String(fmt.Sprintf(args[0].String(), va...))}
 	}))
